@@ -305,8 +305,9 @@ def paths(cfg, start, stop, env0=None, transfer=None, max_visits=2, limit=50000,
             if node.kind in ('test', 'loop') and node.test is not None and lab in (True, False):
                 e2 = dict(env)
                 learn(node.test, lab, e2)
-            if node.kind == 'loop' and isinstance(node.stmt, ast.For) and lab is True:
-                # a new iteration rebinds the loop target: facts about it are stale
+            if node.kind == 'loop' and isinstance(node.stmt, ast.For) and lab is True and visits.get(node.id, 0) >= 2:
+                # a further iteration rebinds the loop target: facts about it (learned in the previous iteration) are stale;
+                # facts given for the first iteration (env0) stay
                 e2 = dict(e2)
                 for x in ast.walk(node.stmt.target):
                     if isinstance(x, ast.Name):
